@@ -43,7 +43,13 @@ Definition exec_pivot_fill : fdef :=
      f_body := [(SAssign (TName "pivoted") (XList [])); (SExpr (XMethod (TName "rows") "sort:key" [(XCall (XConst (PRef 1)) [(XName "col1")] None)])); (SForUnpack ["field1"; "group"] (XPrim "itertools.groupby:key" [(XName "rows"); (XPrim "operator.itemgetter" [(XName "col1")])]) [(SAssign (TName "outrow") (XBin OAdd (XList [(XName "field1")]) (XBin OMul (XList [(XConst PNone)]) (XBin OSub (XLen (XName "columns")) (XConst (PInt 1)))))); (SFor "row" (XName "group") [(SAssign (TName "index") (XBin OAdd (XBin OMul (XCallMethod (XName "keys") "index" [(XIndex (XName "row") (XName "col2"))]) (XName "nother")) (XConst (PInt 1)))); (SAssign (TName "outrow") (XPrim "stmt:setslice" [(XName "outrow"); (XName "index"); (XBin OAdd (XName "index") (XName "nother")); (XCall (XName "other") [(XName "row")] None)]))]); (SExpr (XMethod (TName "pivoted") "append" [(XPrim "builtins.tuple" [(XName "outrow")])]))]); (SReturn (Some (XTuple [(XName "columns"); (XName "pivoted")])))];
      f_gen := false |}.
 
-Definition refs : list (nat * string) :=
-  [(0%nat, "NULL"); (1%nat, "beanquery.query_execute.nullitemgetter"); (2%nat, "beanquery.query_execute.uniquify")].
+(* beanquery.query_execute.execute_query (whole function); parameters: query *)
+Definition exec_execute_query : fdef :=
+  {| f_params := ["query"];
+     f_body := [(SIf (XPrim "isinstance:beanquery.query_compile.EvalQuery" [(XName "query")]) [(SReturn (Some (XCall (XConst (PRef 3)) [(XName "query")] None)))] []); (SIf (XPrim "isinstance:beanquery.query_compile.EvalPivot" [(XName "query")]) [(SUnpack [(TName "columns"); (TName "rows")] (XCall (XConst (PRef 3)) [(XAttr (XName "query") "query")] None)); (SUnpack [(TName "col1"); (TName "col2")] (XAttr (XName "query") "pivots")); (SAssign (TName "othercols") (XListComp (XName "i") "i" (XPrim "builtins.range" [(XLen (XName "columns"))]) (Some (XCompare (XName "i") [(CNotIn, (XAttr (XName "query") "pivots"))])))); (SAssign (TName "nother") (XLen (XName "othercols"))); SPass; (SAssign (TName "keys") (XPrim "sorted_by" [(XPrim "builtins.set" [(XListComp (XIndex (XName "row") (XName "col2")) "row" (XName "rows") None)]); (XListComp (XIfExp (XCompare (XName "value") [(CIsNot, (XConst PNone))]) (XName "value") (XConst (PRef 0))) "value" (XPrim "builtins.set" [(XListComp (XIndex (XName "row") (XName "col2")) "row" (XName "rows") None)]) None)])); (SIf (XCompare (XName "nother") [(CGt, (XConst (PInt 1)))]) [(SAssign (TName "it") (XPrim "itertools.product" [(XName "keys"); (XPrim "builtins.tuple" [(XListComp (XIndex (XName "columns") (XName "i")) "i" (XName "othercols") None)])])); (SAssign (TName "names") (XBin OAdd (XList [(XPrim "fstring" [(XAttr (XIndex (XName "columns") (XName "col1")) "name"); (XConst (PV (VStr [47]))); (XAttr (XIndex (XName "columns") (XName "col2")) "name")])]) (XListComp (XPrim "fstring" [(XIndex (XName "$t") (XConst (PInt 0))); (XConst (PV (VStr [47]))); (XAttr (XIndex (XName "$t") (XConst (PInt 1))) "name")]) "$t" (XName "it") None)))] [(SAssign (TName "names") (XBin OAdd (XList [(XPrim "fstring" [(XAttr (XIndex (XName "columns") (XName "col1")) "name"); (XConst (PV (VStr [47]))); (XAttr (XIndex (XName "columns") (XName "col2")) "name")])]) (XListComp (XPrim "fstring" [(XName "key")]) "key" (XName "keys") None)))]); (SAssign (TName "datatypes") (XBin OAdd (XList [(XAttr (XIndex (XName "columns") (XName "col1")) "datatype")]) (XBin OMul (XListComp (XAttr (XName "col") "datatype") "col" (XPrim "builtins.tuple" [(XListComp (XIndex (XName "columns") (XName "i")) "i" (XName "othercols") None)]) None) (XLen (XName "keys"))))); (SAssign (TName "columns") (XPrim "builtins.tuple" [(XListComp (XCall (XConst (PRef 4)) [(XIndex (XName "$t") (XConst (PInt 0))); (XIndex (XName "$t") (XConst (PInt 1)))] None) "$t" (XPrim "builtins.zip" [(XName "names"); (XName "datatypes")]) None)])); (SAssign (TName "pivoted") (XList [])); (SExpr (XMethod (TName "rows") "sort:key" [(XCall (XConst (PRef 1)) [(XName "col1")] None)])); (SForUnpack ["field1"; "group"] (XPrim "itertools.groupby:key" [(XName "rows"); (XPrim "operator.itemgetter" [(XName "col1")])]) [(SAssign (TName "outrow") (XBin OAdd (XList [(XName "field1")]) (XBin OMul (XList [(XConst PNone)]) (XBin OSub (XLen (XName "columns")) (XConst (PInt 1)))))); (SFor "row" (XName "group") [(SAssign (TName "index") (XBin OAdd (XBin OMul (XCallMethod (XName "keys") "index" [(XIndex (XName "row") (XName "col2"))]) (XName "nother")) (XConst (PInt 1)))); (SAssign (TName "outrow") (XPrim "stmt:setslice" [(XName "outrow"); (XName "index"); (XBin OAdd (XName "index") (XName "nother")); (XPrim "builtins.tuple" [(XListComp (XIndex (XName "row") (XName "i")) "i" (XName "othercols") None)])]))]); (SExpr (XMethod (TName "pivoted") "append" [(XPrim "builtins.tuple" [(XName "outrow")])]))]); (SReturn (Some (XTuple [(XName "columns"); (XName "pivoted")])))] []); (SExpr (XPrim "raise:builtins.RuntimeError" []))];
+     f_gen := false |}.
 
-(* parts of the executor outside the PyMini fragment today (not translated): exec_agg_loop: statement FunctionDef(name='create', args=arguments(posonlyargs=[], args=[], kwonlyargs=[], kw_defaults=[], de; exec_pivot: expression Lambda(args=arguments(posonlyargs=[], args=[arg(arg='x')], kwonlyargs=[], kw_defaults=[], defaults=[ *)
+Definition refs : list (nat * string) :=
+  [(0%nat, "NULL"); (1%nat, "beanquery.query_execute.nullitemgetter"); (2%nat, "beanquery.query_execute.uniquify"); (3%nat, "beanquery.query_execute.execute_select"); (4%nat, "beanquery.Column")].
+
+(* parts of the executor outside the PyMini fragment today (not translated): exec_agg_loop: statement FunctionDef(name='create', args=arguments(posonlyargs=[], args=[], kwonlyargs=[], kw_defaults=[], de *)
